@@ -138,6 +138,24 @@ func (e *env) n(quick, thorough int) int {
 
 var checks = map[string]func(*env){}
 
+// markFile receives a description of the case that is about to run against the real code: when the implementation kills the whole process
+// (log.Fatal, os.Exit, a fatal runtime error, a stack overflow) no recover() can report it; bin/check then reads this file and reports the
+// case as the failing input
+var markFile string
+
+func mark(desc string) {
+	if markFile != "" {
+		_ = os.WriteFile(markFile, []byte(desc), 0o644)
+	}
+}
+
+// unmark: the call into the real code has returned; whatever kills the process from here on is the harness's own doing
+func unmark() {
+	if markFile != "" {
+		_ = os.Remove(markFile)
+	}
+}
+
 func main() {
 	if len(os.Args) < 2 {
 		fmt.Fprintln(os.Stderr, "usage: vh <property> [flags]")
@@ -163,6 +181,10 @@ func main() {
 		os.Exit(2)
 	}
 	log.SetOutput(io.Discard) // the code under test logs warnings per polygon
+	if *out != "" {
+		markFile = *out + ".current"
+		_ = os.Remove(markFile)
+	}
 	start := time.Now()
 	e := &env{tier: *tier, seed: *seed, rng: rand.New(rand.NewSource(*seed)), res: newResult(prop, *tier, *seed), replay: *replay, scale: *scale}
 	if *driver != "" {
@@ -176,6 +198,9 @@ func main() {
 	}
 	f(e)
 	e.res.WallS = time.Since(start).Seconds()
+	if markFile != "" {
+		_ = os.Remove(markFile)
+	}
 	b, _ := json.MarshalIndent(e.res, "", " ")
 	if *out != "" {
 		if err := os.WriteFile(*out, b, 0o644); err != nil {
